@@ -11,11 +11,6 @@ open Wp Wp.Gen Wx.Driver.Pure
 
 def lowerFirst (s : String) : String := match s.toList with | c :: r => String.ofList (c.toLower :: r) | [] => s
 
-/-- name of a project type as the harness prints it: Rust `Debug` name with the first letter lowered -/
-def ptName (t : ProjectType) : String :=
-  let r := (toString (repr t))
-  (r.splitOn ".").getLast!
-
 def parseNode (s : String) : Node := match s with | "f" => .file | "d" => .dir | _ => .other
 
 def parseListing (s : String) : Listing :=
@@ -29,8 +24,8 @@ def sortStr (l : List String) : List String := ((l.toArray.qsort (· < ·)).toLi
 
 def orgLine (s : String) : String :=
   let chain := if s.isEmpty then [] else (s.splitOn "\x1d").map parseLevel
-  let os := sortStr (origins chain)
-  let ts := chain.map (fun (n, l) => n ++ ":" ++ ",".intercalate (sortStr ((types l).map ptName)))
+  let os := sortStr (originsDoc chain)
+  let ts := chain.map (fun (n, l) => n ++ ":" ++ ",".intercalate (sortStr (typesDoc l)))
   "origins=" ++ ",".intercalate os ++ "|types=" ++ ";".intercalate ts
 
 /-! ### signals -/
